@@ -64,13 +64,13 @@ package vm
 // ---- views of an element (each panics, i.e. FAULTs, when the item has no such view)
 //@ func (Element).BigInt
 //@ opt uncovered 1
-//@ requires stackitem.wfItem(e.value)
+//@ requires[typeinv] stackitem.wfItem(e.value)
 //@ requires[nopanic] stackitem.isInt(e.value)
 //@ ensures result != nil && result.v == stackitem.intOf(e.value) && stackitem.in256(result.v)
 
 //@ func (Element).Bool
 //@ opt uncovered 1
-//@ requires stackitem.wfItem(e.value)
+//@ requires[typeinv] stackitem.wfItem(e.value)
 //@ requires[nopanic] stackitem.isBool(e.value)
 //@ ensures result == stackitem.boolOf(e.value)
 
